@@ -17,7 +17,7 @@ from sim import child, gen
 ID = 'C08'
 LEVEL = 'exploration'
 TIERS = {
-    'quick': {'subseeds': 32, 'examples': 14, 'steps': 22, 'wall_budget': 240, 'min_runs': 200, 'task_timeout': 900},
+    'quick': {'subseeds': 24, 'examples': 14, 'steps': 22, 'wall_budget': 240, 'min_runs': 200, 'task_timeout': 900},
     'thorough': {'subseeds': 480, 'examples': 36, 'steps': 26, 'wall_budget': 2400, 'min_runs': 300,
                  'task_timeout': 3000},
 }
